@@ -275,6 +275,12 @@ pub fn queries(group: &str) -> Vec<Query> {
                     q.push(Query { sql: format!("SELECT k, {} FROM t", render(&e)), expect: exp, ordered: false, tie_groups: None, tags: vec![tag] });
                 }
             }
+            // integer literals: each must denote exactly the integer written (in the select list and as a stored value)
+            for lit_ in [0i128, 2147483647, 2147483648, -2147483648, 4294967296, 1 << 53, (1 << 53) + 1, (1 << 53) + 2, -((1 << 53) + 1), 1234567890123456789, 9223372036854775806, 9223372036854775807, -9223372036854775807] {
+                let tag = if lit_.unsigned_abs() > (1u128 << 53) { "integer-literal-above-2^53" } else { "integer-literal" };
+                q.push(Query { sql: format!("SELECT k, {lit_} FROM t WHERE k = 1"), expect: Ok(vec![vec![Val::Int(1), Val::Int(lit_)]]), ordered: false, tie_groups: None, tags: vec![tag] });
+                q.push(Query { sql: format!("SELECT k FROM t WHERE k = 1 AND {lit_} = {lit_} AND NOT {lit_} = {}", lit_ - 1), expect: Ok(vec![vec![Val::Int(1)]]), ordered: false, tie_groups: None, tags: vec![tag] });
+            }
             for a in &exprs {
                 for b in &exprs {
                     let exp: Result<Vec<Vec<Val>>, String> = rows.iter().map(|r| Ok(vec![eval(a, r)?, eval(b, r)?])).collect();
@@ -691,7 +697,7 @@ fn with_db<T>(f: impl FnOnce(&mut Db) -> T) -> Result<T, String> {
 }
 
 pub fn classify_tags(tags: &[&'static str], listed: &[String]) -> Option<String> {
-    let map: BTreeMap<&str, &str> = [("right-join", "KF-right-join-drops-unmatched"), ("decimal-literal-zero-fraction", "KF-decimal-literal-with-zero-fraction-is-an-integer")].into_iter().collect();
+    let map: BTreeMap<&str, &str> = [("right-join", "KF-right-join-drops-unmatched"), ("decimal-literal-zero-fraction", "KF-decimal-literal-with-zero-fraction-is-an-integer"), ("integer-literal-above-2^53", "KF-integer-literal-via-f64")].into_iter().collect();
     for t in tags {
         if let Some(id) = map.get(t) {
             if listed.iter().any(|l| l == id) {
